@@ -3,7 +3,8 @@
 Decided: OptionsHandler::CheckUserInput, OverwriteDefaultsWithUserInput, RemoveOptional, CheckRequired, InjectDefaultsAsValues and the order in which
 ProcessUserInput applies them, executed from the AST of optionshandler.cc over small description/user trees, with tools::Property by an assumed
 contract (ordered children, last-wins lookup by name, attributes, deep copy on add).  The expected result is computed from the property statement, not
-from the code.  NOT decided: XML loading/printing (expat), link resolution against the shipped files, typed access as<T>, choice validation."""
+from the code.  The choice / type validation (RecursivelyCheckOptions, GetPropertyChoices, IsValidOption, IsValidCast<T>) is executed on enumerated (choices, value) pairs.
+NOT decided: XML loading/printing (expat), link resolution against the shipped files, typed access as<T> itself."""
 import os, re, time, itertools, copy
 import sympy as sp
 from vlib import core, rvc, native
@@ -18,7 +19,7 @@ META = {
                      'ASSUMED contract of tools::Property: ordered child list, get/exists by name (last child of that name), Select(name) = children of that name in order, add() appends a deep copy, '
                      'deleteChildren(pred) removes exactly the children satisfying pred, string attributes; std::map<string,Index> iterates in key order; std::none_of by its definition'],
     'assumptions': ['the description tree after link resolution is given (LoadDefaults / ResolveLinks are ghost events)'],
-    'not_decided': ['XML round trip (expat loader, printer, special characters)', 'link resolution and the ~40 shipped option files', 'typed access as<T> and the choice/type validation of RecursivelyCheckOptions', 'trees beyond the enumerated ones'],
+    'not_decided': ['XML round trip (expat loader, printer, special characters)', 'link resolution and the ~40 shipped option files', 'typed access as<T> itself (Property::as<T> is an assumed contract in the choice validation)', 'trees beyond the enumerated ones'],
     'explanation': 'partial: the user-over-default merge and its rejections on enumerated small trees, relative to an assumed Property contract',
 }
 
@@ -267,6 +268,126 @@ def job_merge(seed):
     return obs
 
 
+class TokList(list):
+    def ToVector(s): return list(s)
+
+
+NPOS = 1 << 62
+
+
+def job_choices(seed):
+    """RecursivelyCheckOptions / GetPropertyChoices / IsValidOption / IsValidCast<T>, executed from the AST on one leaf with a `choices` attribute:
+    accepted exactly when the value is inside the declared choices / type.  Property::as<T> and Tokenizer enter by assumed contracts."""
+    rvc.reset()
+    fns = rvc.functions(rvc.ast(REL, 'OptionsHandler::'))
+    # IsValidOption and the IsValidCast<T> instantiations it refers to must come from ONE dump (declaration ids are per clang run): the filter 'IsValid' matches both
+    fns.update({k: v for k, v in rvc.functions(rvc.ast(REL, 'IsValid')).items() if k in ('IsValidCast', 'IsValidOption')})
+    for need in ('RecursivelyCheckOptions', 'GetPropertyChoices', 'IsValidOption', 'IsValidCast'):
+        if need not in fns:
+            raise core.Undecided('front end: %s not found in optionshandler.cc' % need)
+    mfs = [{'name': ('OptionsHandler::' if k != 'IsValidCast' else '') + k, 'file': REL, 'ast_nodes': rvc.node_count(fns[k][0])} for k in ('RecursivelyCheckOptions', 'GetPropertyChoices', 'IsValidOption', 'IsValidCast')]
+    def num(v, kind):
+        try:
+            return (float(v) if kind == 'float' else int(v))
+        except ValueError:
+            return None
+    # (choices attribute, value) -> accepted?   -- from the property statement: one of the listed words; several of the bracketed words; a literal of the declared type
+    CASES = []
+    for v, ok in (('a', True), ('c', True), ('d', False), ('a,b', False), ('a b', False), ('ab', False), ('', False)):
+        CASES.append(('a,b,c', v, ok))
+    for v, ok in (('a', True), ('a,b', True), ('c a', True), ('a,d', False), ('d', False), ('ab', False)):
+        CASES.append(('[a,b,c]', v, ok))
+    for v, ok in (('true', True), ('false', True), ('maybe', False), ('1.5', False)):
+        CASES.append(('bool', v, ok))
+    for v, ok in (('1.5', True), ('-1.5', True), ('3', True), ('abc', False), ('', False)):
+        CASES.append(('float', v, ok))
+    for v, ok in (('1.5', True), ('0', True), ('-1.5', False), ('abc', False)):
+        CASES.append(('float+', v, ok))
+    for v, ok in (('3', True), ('-3', True), ('1.5', False), ('abc', False)):
+        CASES.append(('int', v, ok))
+    for v, ok in (('3', True), ('0', True), ('-3', False), ('1.5', False)):
+        CASES.append(('int+', v, ok))
+    obs = []
+    for nested in (False, True):
+      for extra in ((), ('special',)):
+        for att, val, ok_exp in CASES:
+            if (nested or extra) and not (att in ('a,b,c', '[a,b,c]', 'int+')):
+                continue
+            leaf = P('opt', val, {'choices': att})
+            free = P('other', 'anything', {})            # a leaf without choices is not validated
+            root = P('options', '', {}, [P('calc', '', {}, [free, P('sec', '', {}, [leaf])] if nested else [free, leaf])])
+            root._repath()
+            def as_(obj, n, *a):
+                ty = n['type']['qualType'].replace('const ', '')
+                v = obj.value_.strip()
+                if 'string' in ty:
+                    return v
+                if ty == 'bool':
+                    if v in ('true', 'TRUE', '1', 'yes'): return True
+                    if v in ('false', 'FALSE', '0', 'no'): return False
+                    raise Thrown('std::runtime_error')
+                if ty == 'double':
+                    x = num(v, 'float')
+                    if x is None: raise Thrown('std::runtime_error')
+                    return D(sp.Rational(v))
+                if ty in ('long', 'votca::Index', 'Index', 'int'):
+                    x = num(v, 'int')
+                    if x is None: raise Thrown('std::runtime_error')
+                    return x
+                raise rvc.Unsupported('Property::as<%s>' % ty)
+            def construct(ex_, nn, ty, args):
+                if 'Tokenizer' in ty:
+                    a = [rvc.rval(ex_.expr(x)) for x in args]
+                    return TokList([t for t in re.split('[%s]' % re.escape(a[1]), a[0]) if t])
+                return NotImplemented
+            def find(a, *rest):
+                if isinstance(a, str):
+                    i = a.find(rest[0])
+                    return NPOS if i < 0 else i
+                b, x = rest
+                for i in range(a.i, b.i):
+                    if a.lst[i] == x:
+                        return rvc.ListIt(a.lst, i)
+                return rvc.ListIt(a.lst, b.i)
+            cb = {'as@': as_, 'getAttribute': lambda o_, k: o_.getAttribute(k), 'construct': construct, 'decl': lambda ex_, vd, ty, inner: (construct(ex_, vd, ty, [c for c in (inner[0].get('inner') or [])]) if 'Tokenizer' in ty else NotImplemented),
+                  'find': find, 'cbegin': lambda v: rvc.ListIt(v, 0), 'cend': lambda v: rvc.ListIt(v, len(v)), 'global': lambda nm: NPOS if nm == 'npos' else (_ for _ in ()).throw(rvc.Unsupported('global ' + nm)),
+                  'ostream_write': lambda *a: None, 'str': lambda o_: 'message',
+                  'exec_functions': ('RecursivelyCheckOptions', 'GetPropertyChoices', 'IsValidOption', 'IsValidCast')}
+            this = {'__class__': 'OptionsHandler', 'reserved_keywords_': list(RESERVED), 'defaults_path_': 'PATH', 'additional_choices_': list(extra)}
+            ex = Exec({'p': root}, cb, fns, this)
+            status = 'accepted'
+            try:
+                ex.stmt(rvc.body_of(fns['RecursivelyCheckOptions'][0]))
+            except Ret:
+                pass
+            except Thrown:
+                status = 'rejected'
+            exp = 'accepted' if (ok_exp or val in extra) else 'rejected'
+            tag = '%s%s%s/%s=%s' % ('nested.' if nested else '', 'extra.' if extra else '', att.replace(',', '_'), 'value', val.replace(' ', '_') or 'EMPTY')
+            o = Ob('C11.choices/' + tag, 'OptionsHandler::RecursivelyCheckOptions', 'a leaf declared with choices="%s" and the value "%s" is %s (a value outside the declared choices / type is rejected)' % (att, val, exp), 'RVC', 'symbolic execution (concrete trees)',
+                   core.BOUNDED if status == exp else core.REFUTED, 0, 'expected %s, got %s' % (exp, status), bound='one leaf, choices "%s", value "%s"' % (att, val),
+                   witness=None if status == exp else {'choices': att, 'value': val, 'expected': exp, 'got': status})
+            o['functions'] = mfs
+            obs.append(o)
+            if status != exp:
+                replay_choices(o, att, val, exp)
+    return obs
+
+
+def replay_choices(o, att, val, exp):
+    try:
+        exe = native.build('C11.choices', open(os.path.join(CDIR, 'replay_choices.cc')).read(), [], sanitize=False, opt='-O1', libs=native.libs())
+    except core.Undecided as e:
+        o['replay'] = {'reproduced': False, 'error': str(e)}
+        return
+    d = os.path.join(core.VERIF, 'build', 'tmp', 'c11c_%d' % os.getpid())
+    os.makedirs(d, exist_ok=True)
+    open(os.path.join(d, 'calc_choices.xml'), 'w').write('<options>\n  <calc_choices help="test">\n    <opt help="o" default="%s" choices="%s"/>\n  </calc_choices>\n</options>\n' % ({'a,b,c': 'a', '[a,b,c]': 'a', 'bool': 'true'}.get(att, '1'), att))
+    rc, out, err = native.execute(exe, [d + '/', val, exp], timeout=60)
+    o['replay'] = {'reproduced': rc == 1, 'cmd': '%s %s/ "%s" %s' % (exe, d, val, exp), 'rc': rc, 'stdout': (out or '')[-600:], 'stderr': (err or '')[-300:],
+                   'against': 'real OptionsHandler::ProcessUserInput (libvotca_tools from the working tree) on a description with one leaf declared choices="%s", user value "%s"' % (att, val)}
+
+
 def replay_unchecked(o):
     try:
         exe = native.build('C11.unchecked', open(os.path.join(CDIR, 'replay_unchecked.cc')).read(), [], sanitize=False, opt='-O1', libs=native.libs())
@@ -291,7 +412,7 @@ def collect(obs):
 
 
 def run(tier, seed, only=None):
-    jobs = [(job_merge, (seed,))]
+    jobs = [(job_merge, (seed,)), (job_choices, (seed,))]
     obs = core.pmap(jobs)
     if only:
         obs = [o for o in obs if re.search(only, o['id']) or o['status'] == core.UNDECIDED]
